@@ -12,6 +12,7 @@ import (
 	"reflect"
 	"runtime"
 	"sort"
+	"strconv"
 	"strings"
 	"sync"
 	"time"
@@ -20,6 +21,7 @@ import (
 	protocol "github.com/hujm2023/go-sms-protocol"
 	sms "github.com/hujm2023/go-sms-protocol"
 	"github.com/hujm2023/go-sms-protocol/cmpp"
+	"github.com/hujm2023/go-sms-protocol/cmpp/cmpp20"
 	"github.com/hujm2023/go-sms-protocol/datacoding"
 	gsm7 "github.com/hujm2023/go-sms-protocol/datacoding/gsm7encoding"
 	"github.com/hujm2023/go-sms-protocol/packet"
@@ -113,6 +115,10 @@ func concOp(kind int, seed int64) string {
 				pdc = append(pdc, toPDC(proto, v))
 			}
 		}
+		if rr.Intn(3) == 0 { // a number that is no data coding of the protocol at all, next to valid ones
+			pdc = append(pdc, toPDC(proto, []int{2, 4, 7, 100, 255}[rr.Intn(5)]))
+			rr.Shuffle(len(pdc), func(i, j int) { pdc[i], pdc[j] = pdc[j], pdc[i] })
+		}
 		b := protocol.NewBatchDataCodingEncoder().Protocol(protocol.Protocol(proto)).Content(txt, byte(rr.Intn(256))).DataCodings(pdc)
 		if rr.Intn(2) == 0 { // the coding the message arrived in, usually not among the candidates
 			b.OriginDataCoding(toPDC(proto, batchValid[proto][rr.Intn(len(batchValid[proto]))]))
@@ -148,6 +154,38 @@ func concOp(kind int, seed int64) string {
 		runtime.Gosched()
 		b, err := resp.IEncode()
 		return fmt.Sprint(b, err != nil)
+	case 13: // packet-building helpers
+		seq := rr.Uint32()
+		return fmt.Sprint(cmpp20.NewTerminatePacket(seq), cmpp20.NewActiveTestPacket(seq+1), smpp34.NewEnquireLinkReqBytes(seq+2),
+			smpp34.NewEnquireLinkRespBytes(seq+3), smpp34.NewUnBindRespBytes(seq+4), smpp34.NewDeliverySMRespBytes(seq+5),
+			smpp34.NewUnBindBytes(seq+6), smgp30.NewActiveTestPacket(seq+7))
+	case 14: // a burst of encodes of one package (what a busy connection does): per-package shared state overlaps
+		pkg := []string{"cmpp20", "cmpp30", "smpp34", "sgip12", "smgp30"}[rr.Intn(5)]
+		var names []string
+		for _, tn := range typeNames {
+			if strings.HasPrefix(tn, pkg+".") {
+				names = append(names, tn)
+			}
+		}
+		out := ""
+		for k := 0; k < 12; k++ {
+			tn := names[rr.Intn(len(names))]
+			a := defaultAssign(rr, tn, true)
+			setCmd(tn, a)
+			fixCounts(tn, a)
+			b, err := build(tn, a).IEncode()
+			if err != nil {
+				out += "err|"
+				continue
+			}
+			if tailField(tn) != "" {
+				// optional parameters are emitted in map order: compare header and length only
+				out += fmt.Sprint(len(b), b[:12]) + "|"
+			} else {
+				out += string(b) + "|"
+			}
+		}
+		return out
 	case 11: // login authenticators and timestamps
 		acc, sec := string(nulFree(rr, rr.Intn(7))), string(nulFree(rr, rr.Intn(20)))
 		ts := uint32(rr.Intn(1231235960))
@@ -231,15 +269,18 @@ func runConc(c Case, tr *Tracer) {
 	ids := make([][]int, ng)
 	for g := 0; g < ng; g++ {
 		for i := 0; i < nops; i++ {
-			o := opd{rr.Intn(13), rr.Int63()}
+			o := opd{rr.Intn(15), rr.Int63()}
 			if i == 0 && g%2 == 0 {
 				o.kind = 9 // every second goroutine starts with a failing encode
 			}
 			if i == 1 && g == 1 {
 				o.kind = 4
 			}
+			if i == 1 && g != 1 && g%3 == 0 {
+				o.kind = 14
+			}
 			if fresh && i == 0 && g%2 == 1 {
-				o.kind = []int{6, 2, 11, 12}[(g/2)%4] // first use of the lookup tables, concurrently
+				o.kind = []int{6, 2, 11, 12, 13, 14}[(g/2)%6] // first use of the lookup tables, concurrently
 			}
 			prog[g] = append(prog[g], o)
 			opID++
@@ -261,6 +302,12 @@ func runConc(c Case, tr *Tracer) {
 	results := make([][]string, ng)
 	var wg sync.WaitGroup
 	start := make(chan struct{})
+	// when a candidate is re-examined the goroutines run the program several times (VERIF_CONC_REPS): the first
+	// round that differs from the sequential results is the one reported
+	reps := 1
+	if n, err := strconv.Atoi(os.Getenv("VERIF_CONC_REPS")); err == nil && n > 1 && !fresh {
+		reps = n
+	}
 	// the pool hook of packet.Writer: one record per pool operation, ordered by a sequence taken under a lock
 	type poolEv struct {
 		op   string
@@ -292,22 +339,43 @@ func runConc(c Case, tr *Tracer) {
 		}
 		plog = append(plog, poolEv{op, wi, bid[b], n})
 	}
-	for g := 0; g < ng; g++ {
-		wg.Add(1)
-		go func(g int) {
-			defer wg.Done()
-			<-start
-			yr := rand.New(rand.NewSource(seedv + int64(g)))
-			for _, o := range prog[g] {
-				if yr.Intn(2) == 0 {
-					runtime.Gosched()
+	for rep := 0; rep < reps; rep++ {
+		round := make([][]string, ng)
+		if rep > 0 {
+			start = make(chan struct{})
+		}
+		for g := 0; g < ng; g++ {
+			wg.Add(1)
+			go func(g int) {
+				defer wg.Done()
+				<-start
+				yr := rand.New(rand.NewSource(seedv + int64(g) + int64(rep)*7919))
+				for _, o := range prog[g] {
+					if yr.Intn(2) == 0 {
+						runtime.Gosched()
+					}
+					round[g] = append(round[g], digest(concOp(o.kind, o.seed)))
 				}
-				results[g] = append(results[g], digest(concOp(o.kind, o.seed)))
+			}(g)
+		}
+		close(start)
+		wg.Wait()
+		if rep == 0 {
+			packet.VerifPoolHook = nil
+		}
+		results = round
+		differs := false
+		for g := 0; g < ng && !fresh; g++ {
+			for i := range round[g] {
+				if round[g][i] != seqres[g][i] {
+					differs = true
+				}
 			}
-		}(g)
+		}
+		if differs {
+			break
+		}
 	}
-	close(start)
-	wg.Wait()
 	packet.VerifPoolHook = nil
 	runtime.GOMAXPROCS(old)
 	for _, pe := range plog {
